@@ -1037,7 +1037,34 @@ def _cell_candidates(shape, hcell, sym):
         yield cond, tuple(k for _, k in combo)
 
 
+def _nonfinite(v):
+    return isinstance(v, float) and (v != v or v in (float("inf"), float("-inf")))
+
+
 def _sym_getitem(a, key):
+    if a.dtype == object and builtins.any(_nonfinite(v) for v in a.flat):
+        cells = list(a.flat)
+        if builtins.all((isinstance(v, float) and v == float("-inf")) or isinstance(v, core.SLog) for v in cells):
+            # log-domain table: -inf is the log of 0, mergeable with log-domain cells
+            b = np.empty(a.shape, dtype=object)
+            for c in np.ndindex(*a.shape):
+                b[c] = core.SLog(0) if isinstance(a[c], float) else a[c]
+            return _sym_getitem(b, key)
+        # cells holding +-inf / nan cannot be merged into If-terms with numeric cells: decide the index instead (fork)
+        key2 = []
+        for k in key:
+            if isinstance(k, Sym):
+                key2.append(int(k))
+            elif isinstance(k, np.ndarray) and k.dtype == object:
+                key2.append(np.array([int(x) for x in k.flat], dtype=np.int64).reshape(k.shape))
+            else:
+                key2.append(k)
+        r = a[tuple(key2)]
+        if not isinstance(r, np.ndarray):
+            r0 = np.empty((), dtype=object)
+            r0[()] = r
+            r = r0
+        return r
     ids, hshape, sym = _layout(a.shape, key)
     _sym_range_check(a.shape, sym)
     out = np.empty(ids.shape, dtype=object)
